@@ -133,6 +133,19 @@ func runP7Sign(sc M) {
 			der, err = pkcs7.SignPKCS7(signer, cert, oid, content)
 		}
 	}
+	if str(sc, "sig") == "trailzero" && err == nil && ct == "other" {
+		// a SignedData whose length is a multiple of 8 and whose last octet (the last octet of the RSA signature value) is zero - what
+		// alignment padding looks like: the embedded content is sized so that the length fits, then varied until the value ends in 00
+		pad := (8 - len(der)%8) % 8
+		for i := 1; i <= 8000 && err == nil; i++ {
+			if len(der)%8 == 0 && der[len(der)-1] == 0 {
+				break
+			}
+			content = derTLV(0x04, prbytes(fmt.Sprint("c05:", id, ":", i), size+pad))
+			signedValue = content
+			der, err = pkcs7.SignPKCS7(signer, cert, oid, content)
+		}
+	}
 	if err != nil && sc["busy"] == true {
 		// the token was busy: the caller asks again (now it answers); whatever is returned as a success must be a valid SignedData
 		o, err = guard(func() error {
